@@ -18,4 +18,5 @@ INVARIANT PrunedNeverDifferent
 INVARIANT NoWrongNode
 INVARIANT RootCanonical
 INVARIANT PrunedUnreadable
+INVARIANT LayoutPersistent
 CHECK_DEADLOCK FALSE
